@@ -51,6 +51,8 @@ TRUSTED = ('tools/py2lean_locmap.py (translator of the non-datetime arm of LocMa
 def install():
     if getattr(lean.regen, '_locmap', False):
         return
+    if any(t[0] == TOOL for t in getattr(lean, 'TRANSLATORS', ())):
+        return    # listed in sfv/lean.py::TRANSLATORS (serving C02, C04, C05): nothing to wrap
     try:
         if TOOL in inspect.getsource(lean.regen):
             return
